@@ -29,9 +29,10 @@ MapSeq == TLCEval(SetToSeq(Maps))
 MyIdx == TLCEval({j \in 1..Len(MapSeq) : j % NShard = Shard})
 Probes == {Q(1, 1), Q(3, 2), Q(2, 1), Q(3, 1), Q(7, 2), Q(6, 1), Q(7, 1), Q(15, 2), Q(8, 1), Q(9, 1), Q(19, 2), Q(0, 1)}
 Props == {"Cp", "H", "S", "G"}
-UQ == [basis |-> <<"g1", "g2", "g3", "g4">>,
-       M |-> << <<Q(2, 1), Q(1, 2), Q(0, 1), Q(-1, 4)>>, <<Q(1, 2), Q(1, 1), Q(1, 4), Q(0, 1)>>,
-                <<Q(0, 1), Q(1, 4), Q(3, 2), Q(0, 1)>>, <<Q(-1, 4), Q(0, 1), Q(0, 1), Q(1, 2)>> >>]
+\* g3 has data but is outside the basis; the stored matrix is positive definite in its symmetric part
+\* and deliberately not symmetric (x'Mx is defined by the stored entries, whatever their symmetry)
+UQ == [basis |-> <<"g1", "g2", "g4">>,
+       M |-> << <<Q(2, 1), Q(3, 4), Q(-1, 4)>>, <<Q(1, 4), Q(1, 1), Q(0, 1)>>, <<Q(-1, 4), Q(0, 1), Q(1, 2)>> >>]
 
 Rmse == Corr(<<2, 4, 6>>, <<0, 3, -1>>, Q(3, 1), <<Q(-1, 2)>>, <<Q(3, 4)>>, <<Q(1, 1), Q(8, 1)>>)
 Est(x) == IF Missing(Lib, x) # {} THEN [ok |-> FALSE, cls |-> "GroupMissingDataError", groups |-> Missing(Lib, x)]
